@@ -35,6 +35,10 @@ NUMERIC = {
 }
 
 DATA = {
+    'Gen_build': [
+        dict(name='cleanup_all', kind='cleanup_arg', file='polyply/src/build_system.py',
+             func='BuildSystem._handle_random_walk'),
+    ],
     'Gen_engine_consts': [
         dict(name='tree_threshold', kind='int_compare_const', file='polyply/src/nonbond_engine.py',
              func='NonBondEngine.add_positions', left='self.position_trees[-1].n', op='>'),
